@@ -30,6 +30,7 @@ pub fn op_label(op: Option<&Op>) -> &'static str {
 		Some(Op::PushCrate { .. }) => "push-crate",
 		Some(Op::PushRef { .. }) => "push-ref",
 		Some(Op::FinishBlock) => "finish-block",
+		Some(Op::Many { .. }) => "many",
 	}
 }
 
@@ -144,6 +145,11 @@ impl Prop for C05 {
 			};
 			return Scn { spec, rk_seed: rng.next_u64(), n_kinds: 1, only_kind: Some(if rng.bool() { RKind::Slice } else { RKind::Cursor }) };
 		}
+		if rng.chance(1, 250) {
+			// a LONG history: hundreds of blocks, or more than 65 535 objects in one block
+			let spec = container::gen_long_spec(rng, &profile, 140_000);
+			return Scn { spec, rk_seed: rng.next_u64(), n_kinds: 2, only_kind: None };
+		}
 		let mut spec = container::gen_filespec(rng, &profile);
 		container::maybe_via_write_all(rng, &mut spec);
 		Scn {
@@ -156,8 +162,9 @@ impl Prop for C05 {
 
 	fn exec(&self, scn: &Scn) -> Outcome {
 		let mut out = Outcome::default();
-		let spec = &scn.spec;
-		container::count_scale(spec, &mut out);
+		container::count_scale(&scn.spec, &mut out);
+		let expanded = scn.spec.expanded();
+		let spec = &*expanded;
 		let env = Env::build(&spec.schema);
 		let Some((file, model)) = write_clean(spec, "C05", &mut out) else {
 			return out;
@@ -324,7 +331,7 @@ impl Prop for C05 {
 		if scn.only_kind.is_none() {
 			// resolve the reader kinds once so that a single one can be kept
 			let mut o = Outcome::default();
-			if let Some((file, _)) = write_clean(&scn.spec, "C05", &mut o) {
+			if let Some((file, _)) = write_clean(&scn.spec.expanded(), "C05", &mut o) {
 				let parsed = ref_container::parse(&file).ok();
 				for k in container::gen_reader_kinds(&mut Rng::from_seed(scn.rk_seed), file.len(), parsed.as_ref(), scn.n_kinds) {
 					let mut s = scn.clone();
@@ -381,6 +388,25 @@ pub fn shrink_spec(spec: &FileSpec) -> Vec<FileSpec> {
 					let mut it = items.clone();
 					it.remove(j);
 					s.ops[i] = Op::SerializeAll { items: it };
+					c.push(s);
+				}
+			}
+			Op::Many { seed, n, finish_every, push_every, poison_every, pattern } => {
+				for nn in [n / 2, n.saturating_sub(n / 8 + 1), n.saturating_sub(1)] {
+					if nn < *n && nn > 0 {
+						let mut s = spec.clone();
+						s.ops[i] = Op::Many { seed: *seed, n: nn, finish_every: *finish_every, push_every: *push_every, poison_every: *poison_every, pattern: *pattern };
+						c.push(s);
+					}
+				}
+				if *push_every > 0 {
+					let mut s = spec.clone();
+					s.ops[i] = Op::Many { seed: *seed, n: *n, finish_every: *finish_every, push_every: 0, poison_every: *poison_every, pattern: *pattern };
+					c.push(s);
+				}
+				if *poison_every > 0 {
+					let mut s = spec.clone();
+					s.ops[i] = Op::Many { seed: *seed, n: *n, finish_every: *finish_every, push_every: *push_every, poison_every: 0, pattern: *pattern };
 					c.push(s);
 				}
 			}
